@@ -1010,8 +1010,9 @@ class Network(Cached):
         # rewire embedded igraph.Graph:
         self.graph.rewire(iterations)
 
-        # update all data that depends on rewired edge list:
-        self.set_edge_list(self.graph.get_edgelist())
+        # update all data that depends on rewired edge list (isolated nodes
+        # with the highest indices do not appear in it: keep the node count):
+        self.set_edge_list(self.graph.get_edgelist(), n_nodes=self.N)
 
     def edge_list(self):
         """
